@@ -539,7 +539,11 @@ func newInvInSitu(kind string, t elemT, n int) *matrixInverse.InSitu {
 }
 
 func callInverse(t elemT, A *la.Mat, o invOpts, is *matrixInverse.InSitu) (*la.Mat, outcome) {
-	m := build(t, A)
+	return callInverseM(build(t, A), o, is)
+}
+
+// callInverseM: the input is a library matrix built by the caller (possibly a view).
+func callInverseM(m ad.Matrix, o invOpts, is *matrixInverse.InSitu) (*la.Mat, outcome) {
 	var args []interface{}
 	if o.PD {
 		args = append(args, matrixInverse.PositiveDefinite{Value: true})
@@ -737,11 +741,14 @@ func gjCase(cs *fw.Case, t elemT, structure string, A *la.Mat, ut bool, mask []b
  * -------------------------------------------------------------------------- */
 
 func backsubCall(t elemT, R *la.Mat, b []float64, is *backSubstitution.InSitu) ([]float64, outcome) {
-	m := build(t, R)
 	var bv ad.Vector
 	if b != nil {
 		bv = buildVec(t, b)
 	}
+	return backsubCallM(build(t, R), bv, is)
+}
+
+func backsubCallM(m ad.Matrix, bv ad.Vector, is *backSubstitution.InSitu) ([]float64, outcome) {
 	var args []interface{}
 	if is != nil {
 		args = append(args, is)
@@ -785,7 +792,10 @@ func (o detOpts) String() string {
 }
 
 func detCall(t elemT, A *la.Mat, o detOpts, is *determinant.InSitu) (float64, outcome) {
-	m := build(t, A)
+	return detCallM(build(t, A), o, is)
+}
+
+func detCallM(m ad.Matrix, o detOpts, is *determinant.InSitu) (float64, outcome) {
 	var args []interface{}
 	if o.PD {
 		args = append(args, determinant.PositiveDefinite{Value: true})
@@ -972,6 +982,7 @@ func permList(maxN int) [][]int {
 }
 
 func Run(c *fw.Ctx) {
+	defer runViews(c)
 	/* (1) every pivot order: A = P (D + delta N) for every permutation P */
 	perms := permList(c.N(4, 6))
 	reps := c.N(8, 8)
